@@ -116,7 +116,7 @@ func sweepTxList(c *vh.Ctx, m *vh.Model) {
 				}
 				gen(strict, prefix, full, c.Scale(2, 3))
 				if strict {
-					gen(strict, prefix, reduced, c.Scale(3, 5))
+					gen(strict, prefix, reduced, c.Scale(3, 4))
 				}
 			}
 		}
